@@ -4,6 +4,8 @@ use simplesl_macros::export;
 #[export(IO)]
 pub mod inner {
     use crate::join;
+    #[cfg(simplesl_verif)]
+    use simplesl_verif_seams::println;
     pub use {crate::variable::Variable, std::io};
 
     pub fn print(var: &Variable) {
@@ -15,6 +17,8 @@ pub mod inner {
     }
 
     pub fn cgetline() -> io::Result<String> {
+        #[cfg(simplesl_verif)]
+        use simplesl_verif_seams::io;
         let mut input = String::new();
         io::stdin().read_line(&mut input)?;
         input = input.replace('\n', "");
